@@ -204,6 +204,7 @@ fn run_plan<F: FileSystem + Sync>(out: &mut Outcome, l: &mut Lister<F>, steps: &
     let mut hs = vec![h0];
     let mut chain_pos: Vec<Option<usize>> = vec![None]; // index in S of the last entry returned per handle
     let mut probed_end = vec![false; 4]; // per handle: the previous request on it read at the end of the directory
+    let mut mirror: Vec<Option<std::os::fd::OwnedFd>> = vec![None, None, None, None];
     let mut returned: Vec<usize> = vec![]; // indices of S returned so far (for Resume::Any)
     let mut backward = false;
     let mut switches = 0;
@@ -257,7 +258,14 @@ fn run_plan<F: FileSystem + Sync>(out: &mut Outcome, l: &mut Lister<F>, steps: &
         };
         let Some(mut v) = l.read(out, hs[hi], off, size, st.plus) else { return (false, false) };
         replies += 1;
-        if next < s.len() && v.is_empty() && probed_end[hi] {
+        // does the host show the quirk for this very sequence (end-of-directory read, then seek back)?
+        let quirk = next < s.len()
+            && probed_end[hi]
+            && mirror[hi].as_ref().is_some_and(|m| {
+                let _ = sys::lseek(sys::raw(m), off as i64, libc::SEEK_SET);
+                sys::getdents_len(sys::raw(m), 65536) == Ok(0)
+            });
+        if next < s.len() && v.is_empty() && quirk {
             out.class("dir:retry-after-end-probe");
             let Some(v2) = l.read(out, hs[hi], off, size, st.plus) else { return (false, false) };
             v = v2;
@@ -272,10 +280,18 @@ fn run_plan<F: FileSystem + Sync>(out: &mut Outcome, l: &mut Lister<F>, steps: &
             // Host quirk (ext4 on this kernel, reproduced with bare lseek/getdents64): after
             // lseek(fd, <end-of-directory position>) + getdents64 the NEXT lseek + getdents64 on that
             // descriptor can return nothing once. It is not papered over in advance (that would also
-            // reset the server's position cache); an empty reply directly after such a probe is
-            // retried once below, and only a second empty reply counts.
+            // reset the server's position cache). The same system calls are replayed on a descriptor of
+            // our own; only when THAT shows the quirk for the next request is an empty reply retried once.
             if check_attrs && !s.is_empty() {
                 probed_end[hi] = true;
+                // the same system calls on a descriptor of our own (the quirk is per descriptor)
+                if mirror[hi].is_none() {
+                    mirror[hi] = sys::openat(libc::AT_FDCWD, b"/export", libc::O_RDONLY | libc::O_DIRECTORY, 0).ok();
+                }
+                if let Some(m) = &mirror[hi] {
+                    let _ = sys::lseek(sys::raw(m), off as i64, libc::SEEK_SET);
+                    let _ = sys::getdents_len(sys::raw(m), 65536);
+                }
             }
             continue;
         }
